@@ -3,7 +3,7 @@ CONSTANTS
   AKeys = {"a","b"}
   Vals = {"i:1","i:2","s:x","b:T","f:1"}
   Stores = {1}
-  Ops = {"SetAttrs","SetBulkAttrs","Read","Reopen","CallerMutates"}
+  Ops = {"SetAttrs","SetBulkAttrs","BulkQuery","Read","Reopen","CallerMutates"}
   MaxUpd = 2
   MaxBulk = 2
   ProbeBlocks = {0,1,2}
